@@ -194,19 +194,31 @@ pub fn produce(tier: Tier, emit: &mut dyn FnMut(Case)) {
             payload_kind: 1,
         });
     }
-    let mut m = Msg::new(0x0101, 0, 1);
-    m.groups.push(Group {
-        tag: TAG_OPERATION,
-        attrs: vec![Attr {
-            name: vec![b'n'; 65535],
-            values: vec![Val::Int(1)],
-        }],
-    });
-    emit(Case {
-        kind: "maxlen-name",
-        msg: m,
-        payload_kind: 0,
-    });
+    // attribute and member names at the 8-bit, signed-16-bit and 16-bit boundaries, and multi-byte names
+    let mut names: Vec<Vec<u8>> = [255usize, 256, 32767, 32768, 65535].iter().map(|l| vec![b'n'; *l]).collect();
+    names.push("nämé-€".as_bytes().to_vec());
+    names.push(b" ".to_vec());
+    for n in names {
+        let mut m = Msg::new(0x0101, 0, 1);
+        m.groups.push(Group {
+            tag: TAG_OPERATION,
+            attrs: vec![
+                Attr {
+                    name: n.clone(),
+                    values: vec![Val::Int(1), Val::Str(T_KEYWORD, b"k".to_vec())],
+                },
+                Attr {
+                    name: b"c".to_vec(),
+                    values: vec![Val::Coll(vec![(n.clone(), vec![Val::Int(2)]), (b"z".to_vec(), vec![Val::NoValue])])],
+                },
+            ],
+        });
+        emit(Case {
+            kind: "boundary-name",
+            msg: m,
+            payload_kind: 0,
+        });
+    }
 }
 
 fn fact(n: usize) -> usize {
